@@ -1,6 +1,7 @@
 pub mod bb;
 pub mod gen;
 pub mod hist;
+pub mod jsonw;
 pub mod model;
 pub mod props;
 pub mod runner;
